@@ -22,12 +22,19 @@ pub struct Tol {
     pub l: f64,
     pub mag: f64,
     pub dim: usize,
+    /// Relative slack of the position tolerance (1e-9; 1e-12 for boxes far from the origin, see `tol`)
+    pub slack: f64,
 }
 
 pub fn tol(st: &State) -> Tol {
     let l = st.l_max();
     let mag = st.mag();
-    Tol { pos: 1e-9 * mag, neg_area: 1e-9 * l.powi(st.dim as i32 - 1), l, mag, dim: st.dim }
+    // A box more than 1e6 widths away from the origin: the generous slack of 1e-9 x magnitude would be a sizeable
+    // fraction of the box itself (and hide everything but panics), so such states use 1e-12 x magnitude - still about
+    // 20 times the conditioning-aware bound 256 u / sigma x magnitude (sigma = 1) that decides every ill-conditioned
+    // cell of the other families.
+    let slack = if mag > 1e6 * l { 1e-12 } else { 1e-9 };
+    Tol { pos: slack * mag, neg_area: 1e-9 * l.powi(st.dim as i32 - 1), l, mag, dim: st.dim, slack }
 }
 
 pub fn replay_text(check: &str, st: &State, extra: &[(&str, String)]) -> String {
@@ -123,7 +130,7 @@ pub fn sigma_min<M: meshless_voronoi::ConvexCellMarker>(cell: &meshless_voronoi:
 /// Position tolerance for a cell whose worst vertex conditioning is `sigma`: the generous 1e-9 * magnitude
 /// for well conditioned cells, 256 u / sigma * magnitude when that is larger (rounding amplified by conditioning).
 pub fn pos_for(t: &Tol, sigma: f64) -> f64 {
-    t.mag * (1e-9f64).max(5.7e-14 / sigma.max(1e-13))
+    t.mag * t.slack.max(5.7e-14 / sigma.max(1e-13))
 }
 
 /// Conditioning of every constructed cell (1.0 for unconstructed ones).
